@@ -89,6 +89,23 @@ def start_jobs(tier, side, F=None, types=(1, 2, 3, 5, 6, 7)):
     return jobs
 
 
+def lowfd_jobs(tier, side=1, forkmode=0, F=0, types=(1, 2, 3, 5, 6, 7)):
+    """start with the parent's descriptors 0/1/2 open or closed in every combination, and HANDLE
+    redirects that may name descriptor 1 or 2 (the region of former finding D10)"""
+    jobs = []
+    for it in types:
+        jobs.append(Job("h_start", variant="lowfd-side%d-in%d-F%d-%s" % (side, it, F, "fork" if forkmode else "exec"),
+                        defines={"VP_SIDE": side, "VP_IN_TYPE": it, "VP_F": F, "VP_EINTR": 0, "VP_LOWFD": 1,
+                                 "VP_FORKMODE": forkmode, "VP_MAXEV": 1, "VP_EXTRA": 0, "VP_NFD": 18, "VP_NOFD": 18},
+                        unwind=20, params={"nfd": 18, "retry": F + 2, "input_max": 3},
+                        cbmc_flags=["--slice-formula"], timeout=1200, solvers=("minisat", "cadical"),
+                        bounds={"faults": F, "descriptor_table": 18, "stdin_type": it,
+                                "parent_descriptors_0_1_2": "each open or closed", "mode": "fork" if forkmode else "exec"}))
+    return jobs
+
+
+LOWFD_PROPS = ()  # becomes ("C10", "C11") once finding D10 is repaired: the region then is an ordinary job
+
 prop("C04", units=["reproc/src/reproc.c", "reproc/src/process.posix.c", "reproc/src/redirect.c",
                    "reproc/src/redirect.posix.c", "reproc/src/pipe.posix.c", "reproc/src/handle.posix.c",
                    "reproc/src/options.c", "reproc/src/strv.c"],
@@ -534,6 +551,9 @@ add("C08", lambda tier: [stop_job(2, tier, F=1)])
 add("C05", lambda tier: [unit_job(6, "sink_string")])
 add("C02", lambda tier: start_jobs(tier, 1, F=0, types=(1,)))
 add("C14", lambda tier: start_jobs(tier, 0, types=(1,)))
+
+for _p in LOWFD_PROPS:
+    add(_p, lambda tier: lowfd_jobs(tier))
 
 # ---- strengthening after the third mutation round
 def winredir_job():
